@@ -64,7 +64,7 @@ def gen_case(rng, idx):
             ops.append({"op": "add", "i": i, "j": j})
             n_pool += 1
         elif kind == "scale":
-            c = float(rng.choice([0.0, 0.5, 2.0, float(np.round(rng.uniform(0, 10), 3))]))
+            c = float(rng.choice([0.0, 0.5, 2.0, 1e-7, float(np.round(rng.uniform(0, 10), 3))]))
             ops.append({"op": "scale", "i": int(rng.integers(n_pool)), "c": c})
             n_pool += 1
         elif kind == "emissions":
@@ -86,6 +86,8 @@ def gen_mass(rng):
         return 0.0
     if r < 0.3:
         return float(rng.integers(1, 1000))
+    if r < 0.4:       # mass flows in kg/s of a small unit over a short step: tiny but not zero
+        return float(10.0 ** (-rng.uniform(3, 12)))
     return float(np.round(rng.uniform(0, 5000), int(rng.integers(0, 6))))
 
 
